@@ -239,6 +239,18 @@ func buildScript(decls []string, axioms []string, o *Obl, forCVC5 bool, slice bo
 		for _, t := range miss {
 			sb.WriteString("(declare-const " + t + " Int)\n")
 		}
+		// likewise string literals first met after this obligation was recorded (their axioms
+		// relate them to the earlier ones)
+		var missS []string
+		for t := range needed {
+			if strings.HasPrefix(t, "strlit_") && !have[t] {
+				missS = append(missS, t)
+			}
+		}
+		sort.Strings(missS)
+		for _, t := range missS {
+			sb.WriteString("(declare-const " + t + " Str)\n")
+		}
 	}
 	for i, a := range axioms {
 		if inclAx[i] {
